@@ -51,7 +51,24 @@ def _drop_spares_newcomer(server):
             srv._serve_requests(7)
         except Exception as ex:  # noqa
             raise Inexpressible("ThreadPoolServer._serve_requests no longer handles EOFError from poll(): %r" % (ex,))
-        return srv.fd_to_conn.get(7) is newcomer and not newcomer.closed
+        worker_path = srv.fd_to_conn.get(7) is newcomer and not newcomer.closed
+        # the poller's hang-up path (`_handle_poll_result` -> `_drop_connection(fd)`): the descriptor number is free only once
+        # the departing connection is closed; a newcomer stored under it from inside that close() must survive
+        newcomer2, leaving2 = Stand(), Stand()
+
+        def close2():
+            leaving2.closed = True
+            srv.fd_to_conn[8] = newcomer2
+
+        leaving2.close = close2
+        srv.fd_to_conn[8] = leaving2
+        srv._remove_from_inactive_connection = lambda fd: None
+        try:
+            srv._handle_poll_result([(8, "h")])
+        except Exception as ex:  # noqa
+            raise Inexpressible("ThreadPoolServer._handle_poll_result cannot be run on a stand-in: %r" % (ex,))
+        poller_path = leaving2.closed and srv.fd_to_conn.get(8) is newcomer2 and not newcomer2.closed
+        return worker_path and poller_path
     finally:
         srv.listener.close()
 
@@ -157,11 +174,21 @@ def _accept_survives_transient_error(server):
         quiet.addHandler(logging.NullHandler())
     quiet.propagate = False
     out = []
-    real_sleep = server.time.sleep
-    server.time.sleep = lambda t: None          # (the pause after a failed accept is not what is measured)
+    import time as _time
+    real_sleep = _time.sleep
+    _time.sleep = lambda t: None                # (the pause after a failed accept is not what is measured; restored below)
     runs = [[e] for e in (errno.EMFILE, errno.ENFILE, errno.ENOBUFS, errno.ENOMEM, errno.ECONNABORTED, errno.EPROTO,
                           errno.ENETDOWN, errno.EHOSTUNREACH)]
     runs.append([errno.EMFILE] * 5)             # the condition lasts: several failures in a row
+    try:
+        return _accept_runs(server, runs, Listener, quiet)
+    finally:
+        _time.sleep = real_sleep
+
+
+def _accept_runs(server, runs, Listener, quiet):
+    import rpyc
+    out = []
     for e in runs:
         try:
             srv = server.ThreadedServer(rpyc.VoidService, hostname="127.0.0.1", port=0, auto_register=False, logger=quiet)
@@ -180,66 +207,92 @@ def _accept_survives_transient_error(server):
                 raise Inexpressible("Server.accept raised %r on an injected accept() error" % (ex,))
         finally:
             real.close()
-    server.time.sleep = real_sleep
     return all(out)
 
 
 def _spawn_failure_turns_client_away(server):
-    """the live `Server.accept` on a listener stand-in that hands out one stand-in socket, with `_accept_method` raising what
-    a failed `spawn()` / `os.fork()` raises: true iff accept() comes back normally, the socket was closed and is no longer in
-    `server.clients`"""
+    """the live `Server.accept` of a real ThreadedServer and a real ForkingServer, on a listener stand-in that hands out one
+    stand-in socket, with `rpyc.utils.server.spawn` / `os.fork` made to fail the way they do at the thread / process limit
+    (patched for the duration of the call; the real `_accept_method`s run): true iff accept() comes back normally, the
+    socket was closed and is no longer in `server.clients`, and the server has not closed itself"""
     import logging
+    import os
     import rpyc
     quiet = logging.getLogger("rpycverif.gen.silent")
     if not quiet.handlers:
         quiet.addHandler(logging.NullHandler())
     quiet.propagate = False
+
+    class Sock(object):
+        closed = False
+
+        def setblocking(self, flag):
+            pass
+
+        def fileno(self):
+            return 7
+
+        def close(self):
+            self.closed = True
+
+        def shutdown(self, how):
+            pass
+
+        def getpeername(self):
+            return ("127.0.0.1", 1)
+
+    class Listener(object):
+        def __init__(self):
+            self.sock = Sock()
+
+        def accept(self):
+            return self.sock, ("127.0.0.1", 1)
+
+        def close(self):
+            pass
+
+        def shutdown(self, how):
+            pass
+
+        def fileno(self):
+            return -1
+
+    def no_spawn(*a, **k):
+        raise RuntimeError("can't start new thread")
+
+    def no_fork():
+        raise OSError(11, "Resource temporarily unavailable")
+
     out = []
-    for exc in (RuntimeError("can't start new thread"), OSError(11, "Resource temporarily unavailable")):
-        class Sock(object):
-            closed = False
-
-            def setblocking(self, flag):
-                pass
-
-            def fileno(self):
-                return 7
-
-            def close(self):
-                self.closed = True
-
-            def shutdown(self, how):
-                pass
-
-        class Listener(object):
-            def __init__(self):
-                self.sock = Sock()
-
-            def accept(self):
-                return self.sock, ("127.0.0.1", 1)
-
+    for cls_name in ("ThreadedServer", "ForkingServer"):
+        cls = getattr(server, cls_name)
         try:
-            srv = server.ThreadedServer(rpyc.VoidService, hostname="127.0.0.1", port=0, auto_register=False, logger=quiet)
-        except OSError as ex:
-            raise Inexpressible("cannot instantiate ThreadedServer: %s" % ex)
+            srv = cls(rpyc.VoidService, hostname="127.0.0.1", port=0, auto_register=False, logger=quiet)
+        except (OSError, ValueError) as ex:     # (ValueError: signal handlers can only be set in the main thread)
+            if cls_name == "ForkingServer":
+                continue
+            raise Inexpressible("cannot instantiate %s: %s" % (cls_name, ex))
         real = srv.listener
+        real_spawn, real_fork = server.spawn, os.fork
         try:
             srv.listener = lst = Listener()
             srv.active = True
-
-            def failing(sock, _e=exc):
-                raise _e
-            srv._accept_method = failing
+            server.spawn, os.fork = no_spawn, no_fork
             try:
                 srv.accept()
-                out.append(lst.sock.closed and lst.sock not in srv.clients)
+                out.append(lst.sock.closed and lst.sock not in srv.clients and not getattr(srv, "_closed", False))
             except (RuntimeError, OSError):
                 out.append(False)
             except Exception as ex:  # noqa
-                raise Inexpressible("Server.accept raised %r when _accept_method failed" % (ex,))
+                raise Inexpressible("Server.accept raised %r when spawn()/fork() failed" % (ex,))
         finally:
-            real.close()
-    return all(out)
+            server.spawn, os.fork = real_spawn, real_fork
+            srv.listener = real
+            try:
+                srv.close()                      # (a ForkingServer puts the previous SIGCHLD handler back)
+            except Exception:  # noqa
+                real.close()
+    return bool(out) and all(out)
 
 
 def _pool_survives_peer_base_exception(server):
